@@ -48,6 +48,8 @@ def key_name(td, a, f=None):
 def by_name(td, a):
     if td.keys == "distinct":
         return "by_" + a
+    if a == "partial_ord" and "Ord" not in td.derived:
+        return "ck_pcmp_p"          # incomparable pairs exist: `==` derived from it must be false there
     return {"ord": "ck_cmp", "partial_ord": "ck_pcmp", "eq": "ck_eq", "partial_eq": "ck_eq", "hash": "ck_hash"}[a]
 
 
@@ -77,6 +79,14 @@ def typedef_text(td, extra_derives=("Debug", "Clone")):
     lst = ", ".join(td.derived)
     std = ", ".join(extra_derives)
     if td.entry == "attr":
+        head = "#[derive_ex::derive_ex(%s)]\n#[derive(%s)]\n" % (lst, std)
+    elif td.entry.startswith("attr_split") and len(td.derived) > 1:
+        # the list split over stacked attributes (first trait alone, the rest in a sibling written bare / with the crate path / with `::`):
+        # one request, the helper attributes are shared
+        sib = {"attr_split": "derive_ex::derive_ex", "attr_split_colon": "::derive_ex::derive_ex", "attr_split_last": "derive_ex::derive_ex"}[td.entry]
+        a, b = (td.derived[:1], td.derived[1:]) if td.entry != "attr_split_last" else (td.derived[:-1], td.derived[-1:])
+        head = "#[derive_ex::derive_ex(%s)]\n#[%s(%s)]\n#[derive(%s)]\n" % (", ".join(a), sib, ", ".join(b), std)
+    elif td.entry.startswith("attr_split"):
         head = "#[derive_ex::derive_ex(%s)]\n#[derive(%s)]\n" % (lst, std)
     else:
         head = "#[derive(derive_ex::Ex, %s)]\n#[derive_ex(%s)]\n" % (std, lst)
@@ -118,7 +128,7 @@ def wrap(td, text):
     body = "".join(l + " " for l in text.split("\n") if l.strip())
     # one paragraph: the derive_ex item under a prelude-shadowing glob import; key/by functions and field types come from support
     return ("pub mod def { #[allow(unused_imports)] use super::shadow::*; use crate::support::{%s}; #[allow(unused_macros)] macro_rules! unreachable { (never) => {} }\n%s\n}\n\n%spub use def::%s as %s;\n" % (
-        ", ".join(["P", "W", "Kb"] + ["k_" + a for a in R.OPS] + ["by_" + a for a in R.OPS] + ["ck", "ck_cmp", "ck_pcmp", "ck_eq", "ck_hash"]), body, SHADOW, td.hostile.get("type", td.tname), td.tname))
+        ", ".join(["P", "W", "Kb"] + ["k_" + a for a in R.OPS] + ["by_" + a for a in R.OPS] + ["ck", "ck_cmp", "ck_pcmp", "ck_pcmp_p", "ck_eq", "ck_hash"]), body, SHADOW, td.hostile.get("type", td.tname), td.tname))
 
 
 
